@@ -54,6 +54,7 @@ MockCheckedActualCall::MockCheckedActualCall(unsigned int callOrder, MockFailure
       allExpectations_(allExpectations), outputParameterExpectations_(NULLPTR)
 {
     potentiallyMatchingExpectations_.addPotentiallyMatchingExpectations(allExpectations);
+    potentiallyMatchingExpectations_.resetActualCallMatchingState();
 }
 
 MockCheckedActualCall::~MockCheckedActualCall()
